@@ -73,6 +73,14 @@ def _tx_callable(handle, spec):
                     spec.setdefault("errors", []).append(type(e).__name__)
             return True
         return two
+    if k == "locktouch":
+        # takes the table's commit lock (over, if its holder's lease lapsed) and releases it again without committing anything
+        def touch():
+            lp = handle.metadata_manager.lock_provider
+            lp.acquire()
+            lp.release()
+            return True
+        return touch
     if k == "delsnap":
         return lambda: handle.snapshot_manager.delete_snapshot(spec["snapshot"])
     if k == "expire":
@@ -123,6 +131,8 @@ def run_case(ctx, rep, case, base_dir, model_ok):
                     specs[ai] = {"kind": "append", "rows": tablekit.rows(1, start=1000 * ai, tag=f"a{ai}_")}
                 elif kind == "append2":
                     specs[ai] = {"kind": "append2", "parts": [tablekit.rows(1, start=1000 * ai, tag=f"a{ai}x_"), tablekit.rows(1, start=1000 * ai + 50, tag=f"a{ai}y_")]}
+                elif kind == "locktouch":
+                    specs[ai] = {"kind": "locktouch"}
                 elif kind == "delsnap":
                     specs[ai] = {"kind": "delsnap", "snapshot": init_snaps[(ai - 1) % 2]}      # never the current one
                 elif kind == "expire":
@@ -182,6 +192,9 @@ def run_case(ctx, rep, case, base_dir, model_ok):
                         return
                     a = S.actor()
                     if op == "put":
+                        for b_ in handles:
+                            if b_ != a and lockstate["owner"] == b_ and getattr(handles[b_].metadata_manager.lock_provider, "is_locked", False):
+                                lockstate.setdefault("lost", set()).add(b_)     # b_'s lock object was just written over by another actor
                         lockstate["owner"] = a
                         lockstate["stale"].discard(a)
                     elif op == "delete":
@@ -192,10 +205,20 @@ def run_case(ctx, rep, case, base_dir, model_ok):
                 env.fake.hook = s3hook
                 for ai in handles:
                     lp_ = handles[ai].metadata_manager.lock_provider
+                    o_acq = lp_.acquire
+
+                    def acq_(*a_, _o=o_acq, _ai=ai, **k_):
+                        lockstate.setdefault("lost", set()).discard(_ai)       # a NEW acquisition through the front door starts afresh
+                        lockstate.setdefault("lost_at_fence", set()).discard(_ai)
+                        return _o(*a_, **k_)
+                    lp_.acquire = acq_
                     if hasattr(lp_, "is_held"):
                         o_held = lp_.is_held
 
                         def held_(_o=o_held, _ai=ai):
+                            if _ai in lockstate.get("lost", ()):
+                                # its lock object was written over by another actor BEFORE this fencing check (whatever the object says now)
+                                lockstate.setdefault("lost_at_fence", set()).add(_ai)
                             r_ = _o()
                             if r_ and lockstate["owner"] not in (_ai, None):
                                 lockstate["stale"].add(_ai)     # the fence said "held" although another committer owns the lock object
@@ -210,7 +233,7 @@ def run_case(ctx, rep, case, base_dir, model_ok):
 
                             def w_(p_, *a_, _o=o_, _ai=ai, **k_):
                                 r_ = _o(p_, *a_, **k_)
-                                if str(p_).lstrip("/") == "metadata.version-hint.text" and (_ai in lockstate["stale"] or (
+                                if str(p_).lstrip("/") == "metadata.version-hint.text" and (_ai in lockstate["stale"] or _ai in lockstate.get("lost_at_fence", ()) or (
                                         case.get("strict_fence") and lockstate["owner"] not in (_ai, None))):
                                     # strict_fence: schedules in which the takeover is complete BEFORE this committer resumes at its fence
                                     lost_then_flipped.append(_ai)
